@@ -144,7 +144,11 @@ class Gen:
             elif k == 'WAIT':
                 lines.append('%sPT_WAIT();' % t)
             elif k == 'WAIT_UNTIL':
-                lines.append('%sPT_WAIT_UNTIL(poll(x, %d, %d));' % (t, s[1], s[2]))
+                # every other condition is an unparenthesised comparison (macro hygiene: !(c) versus !c)
+                if (s[1] + s[2]) % 2:
+                    lines.append('%sPT_WAIT_UNTIL(poll(x, %d, %d) == %d);' % (t, s[1], s[2], 2 + 5 * s[1]))
+                else:
+                    lines.append('%sPT_WAIT_UNTIL(poll(x, %d, %d));' % (t, s[1], s[2]))
             elif k == 'IF':
                 lines.append('%sif %s {' % (t, self.c_cond(s[1])))
                 self.render_block(s[2], ind + 1, lines, loopbase)
